@@ -195,7 +195,8 @@ class Gen:
             if r.random() < 0.3:
                 labels.append(["exponentialrate", ["int", self.K()] if r.random() < 0.6 else ["FRACTION", ["int", self.K()], ["int", self.K()]]])
             flag = r.choice(["", "", "", "U", "C"])
-            locs.append({"id": lid, "name": ("S%d" % i) if named else None, "labels": labels,
+            special = {0: "Err", 1: "lpmin"}.get(i) if r.random() < 0.05 else None      # names the XML writer special-cases
+            locs.append({"id": lid, "name": (special or ("S%d" % i)) if named else None, "labels": labels,
                          "urgent": flag == "U", "committed": flag == "C"})
         nb = r.choice([0, 0, 0, 1, 2])
         bps = [self.ident_id(scheme, t, nl + i) for i in range(nb)]
@@ -445,9 +446,10 @@ class XmlText:
         o = []
         w = self.ws
         o.append('<?xml version="1.0" encoding="utf-8"?>\n')
-        if not self.ch(0.3):
+        root = "project" if self.ch(0.1) else "nta"
+        if not self.ch(0.3) and root == "nta":
             o.append("<!DOCTYPE nta PUBLIC '-//Uppaal Team//DTD Flat System 1.1//EN' 'http://www.it.uu.se/research/group/darts/uppaal/flat-1_1.dtd'>\n")
-        o.append("<nta>" + w())
+        o.append("<%s>" % root + w())
         gtext = "\n".join(d["text"] for d in M["gdecls"])
         if gtext or not self.ch(0.5):
             o.append("<declaration>%s</declaration>" % self.text(gtext) + w())
@@ -518,11 +520,11 @@ class XmlText:
         o.append("<system>%s</system>" % self.text(itext + stext) + self.v.choice(["", "\n", " \n "]) if self.v else "<system>%s</system>\n" % self.text(itext + stext))
         if self.ch(0.2):
             o.append("<queries>\n<query><formula>A[] true</formula><comment>c</comment></query>\n</queries>\n")
-        o.append("</nta>\n")
+        o.append("</%s>\n" % root)
         return "".join(o)
 
 
-def render_xta(M, prefs=()):
+def render_xta(M, prefs=(), vary=None):
     """AModel -> XTA text (common subset: identifiers as location names, labels in grammar order).  prefs[i] asks for the
     chained form `, -> T {..}` for the i-th edge of a template; it is used where the grammar allows it (same source as
     the last full transition, no probability section) -- the same rule as renderTrans in lean/UtapModel/Model/Xta.lean."""
@@ -550,10 +552,18 @@ def render_xta(M, prefs=()):
             o.append("  branchpoint " + ", ".join("_" + b for b in t["bps"]) + ";")
         com = [node_name(t, l["id"]) for l in t["locs"] if l["committed"]]
         urg = [node_name(t, l["id"]) for l in t["locs"] if l["urgent"]]
-        if com:
-            o.append("  commit " + ", ".join(com) + ";")
+        flags = []
+        if vary is not None and vary.random() < 0.3 and len(com) > 1:      # several commit lists
+            flags += ["  commit " + com[0] + ";", "  commit " + ", ".join(com[1:]) + ";"]
+        elif com:
+            flags.append("  commit " + ", ".join(com) + ";")
         if urg:
-            o.append("  urgent " + ", ".join(urg) + ";")
+            flags.append("  urgent " + ", ".join(urg) + ";")
+        if vary is not None and vary.random() < 0.5:
+            flags.reverse()                                                # the grammar takes the lists in any order
+        o += flags
+        if vary is not None and vary.random() < 0.3:
+            o.append("  // a comment\n  /* and\n another */")
         o.append("  init %s;" % node_name(t, t["init"]))
         tr = []
         root = None
